@@ -1,6 +1,6 @@
 """C02: no comparison panics or depends on the build profile (R-PANIC); owned forms forward correctly (R-FWD)."""
 from rules.panic_clause import panic_clause
-from rules import table as TB
+from rules import table as TB, ordertable
 from props import common
 
 
@@ -52,8 +52,11 @@ def run(ctx):
                        '(overflow/bounds asserts, debug_assert failures, unwrap/expect, slicing, external may-panic calls) in every body reachable '
                        'from the PartialEq/PartialOrd/Ord impls of BigDecimal and BigDecimalRef is enumerated from the call graph; each must be '
                        'discharged by interval/constant reasoning or match a reviewed entry (exact structural key + the dominating guard its '
-                       'argument rests on).  Decides "no comparison panics or depends on build profile"; does NOT decide that the comparison '
-                       'strategies compute the right answer.')
+                       'argument rests on).  ORDER-TABLE: every return path of <BigDecimalRef as Ord>::cmp is reduced to (comparison base, reversals mod 2) and its '
+                       'predicates to a cell (scale order, difference fits u64, sign); the base must be the correctly oriented digit comparison (or the scale order '
+                       'when the difference overflows) and the reversal parity must match the sign, so no magnitude ordering is returned without the sign correction; '
+                       'checked_diff is checked against its contract cell by cell.  Decides "no comparison panics or depends on build profile" and the shape of the '
+                       'ordering table; does NOT decide the digit-level strategies inside compare_scaled_biguints / check_equality_bigdecimal_ref.')
     F = ctx.facts('default', 'dbg')
     ents = common.cmp_entries(F)
     rep.entries['comparison impls'] = [e.key for e in ents]
@@ -63,5 +66,13 @@ def run(ctx):
     rep.floor('may-panic sites enumerated', n, 14)
     nf = forwarders(rep, ctx.facts('default', 'rel'))
     rep.floor('comparison forwarders', nf, 4)
+    Fr = ctx.facts('default', 'rel')
+    nt = ordertable.cmp_table(rep, Fr)
+    nc = ordertable.checked_diff_contract(rep, Fr)
+    rep.floor('order-table cells of <BigDecimalRef as Ord>::cmp', nt, 14)
+    rep.floor('checked_diff contract cells', nc, 4)
+    ne = ordertable.eq_table(rep, Fr)
+    rep.floor('equality table cells', ne, 7)
+    rep.trust('compare_scaled_biguints(a, b, k) decides a <=> b*10^k (its documented contract; the digit comparison itself is not decided)')
     rep.trust(common.TRUST_STD)
     rep.trust(common.TRUST_BIGINT)
